@@ -290,6 +290,14 @@ func init() {
 		deep := hs(nest("[", "]", 10001, "1"))
 		mid := hs(nest(`{"a":`, "}", 300, "[[[]]]"))
 		usedBufferHistories(e, []string{"skip", "skipfast", "valid"}, true)
+		// a recursive decoder whose every level shares one Buffer, incl. beyond 10,000 levels (the handler
+		// machines have no depth limit of their own)
+		for _, d := range [][]byte{nest("[", "]", 10001, "1"), nest(`[{"a":`, "}]", 6000, "1"), nest("[[],", "]", 3000, `{"k":[1,{"z":null}]}`),
+			[]byte(`[1,[2,[3,{"a":[4,{"b":{}}]}]],"s",{"k":[[]]}]`), []byte(`{"a":{"b":{"c":[1,2,[3]]}},"d":[{"e":1}]}`), []byte(`[1,[2,`), []byte(`{"a":[1 2]}`), []byte("7"), []byte(" ")} {
+			for _, b := range []string{"nobuf", "nil", "-", "7,7,7", "9999,0,1,2,3,4,5,6,7,8,9,10"} {
+				e.emit("hrec %s %s", hs(d), b)
+			}
+		}
 		for _, len1 := range []string{"[1 2]", "[tru]", `{"a" 1}`, "[1,]", `{"a":[1 2],"b":}x`, "[[1 2],{3}]"} {
 			for _, st := range []string{"nil", "-", "7,7,7"} {
 				e.emit("hist %s skipfast:%s skip:%s skipfast:%s valid:%s", st, hs([]byte(len1)), hs([]byte(len1)), hs([]byte(len1)), hs([]byte(len1)))
